@@ -216,7 +216,7 @@ pub fn run(ctx: &Ctx) -> Report {
         }
     }
     // ---- SmoothBase::new(b1, large): every prime power below b1 divides the product
-    let mut b1s: Vec<usize> = (4..=ctx.pick(6000usize, 70_000)).collect();
+    let mut b1s: Vec<usize> = (4..=ctx.pick(24_000usize, 70_000)).collect();
     for d in 0..=160usize {
         b1s.push(65536 - 80 + d);
     }
@@ -312,7 +312,7 @@ pub fn run(ctx: &Ctx) -> Report {
     rep.sample(J::obj(vec![("fn", J::s("primes")), ("k", J::from(6542u64)), ("expected_last", J::from(65521u64))]));
     rep.sample(J::obj(vec![("fn", J::s("PrimeSieve::next")), ("block", J::from(65535u64)), ("range", J::s("[4294901760, 4294967296)"))]));
     rep.sample(J::obj(vec![("fn", J::s("SmoothBase::new")), ("b1", J::from(65536u64)), ("large", J::B(true))]));
-    rep.rule = format!("primes(k) for every k in [0,{}] plus 2^j-1,2^j,2^j+1 (j<=20), 10^5 (thorough: 10^6) against an Eratosthenes table; the PrimeSieve state machine walked through ALL 65536 blocks (+2 calls past the end), each block compared with an independent segmented sieve (states = blocks, transitions = next() calls); SmoothBase::new(b1, large) for every b1 in [4,{}] plus [65456,65616] and the strategy-table B1 values x large in {{false,true}}: every block is factored back (a wrapped u64/1024-bit product shows up as a foreign cofactor) and v_p(product) >= max{{e: p^e < b1}} for every prime p < b1; PM1Base likewise.", kmax, ctx.pick(6000, 70000));
+    rep.rule = format!("primes(k) for every k in [0,{}] plus 2^j-1,2^j,2^j+1 (j<=20), 10^5 (thorough: 10^6) against an Eratosthenes table; the PrimeSieve state machine walked through ALL 65536 blocks (+2 calls past the end), each block compared with an independent segmented sieve (states = blocks, transitions = next() calls); SmoothBase::new(b1, large) for every b1 in [4,{}] plus [65456,65616] and the strategy-table B1 values x large in {{false,true}}: every block is factored back (a wrapped u64/1024-bit product shows up as a foreign cofactor) and v_p(product) >= max{{e: p^e < b1}} for every prime p < b1; PM1Base likewise.", kmax, ctx.pick(24000, 70000));
     rep.assumptions.push("reference prime table by plain Eratosthenes".into());
     rep
 }
